@@ -10,7 +10,10 @@ import xarray as xr
 from harness import xvio
 
 ID = 'C17'
-RULE = ('datasets of 2..8 same-shaped layers (1x1 .. 5x6 mostly non-square, plus 1x40, 40x1, 17x23, 32x8, 9x64; with and without '
+RULE = ('multi-step sequences for every function (call, edit the SAME Dataset object in place - replace a layer, write cells, add / move / '
+        'remove a NaN - call again with the same arguments, 2-4 edits; inputs compared with a snapshot after each call) and loops over '
+        'short-lived temporary Datasets; single calls on ')
+RULE += ('datasets of 2..8 same-shaped layers (1x1 .. 5x6 mostly non-square, plus 1x40, 40x1, 17x23, 32x8, 9x64; with and without '
         'ascending / descending coordinates; every integer width signed and unsigned, float16/32/64; dtype-boundary values 2**24+1, 2**31, '
         '2**32+1, 2**49 and the dtypes\' own extremes; signed zeros; cell_stats with func given and left at its default; small integer / half-integer values so ties '
         'are frequent; NaN and +-inf in float layers; float64/float32/int32/int64), each layer stored C-contiguous, '
@@ -49,6 +52,8 @@ LEVEL_TEXT = ('Proved for all shapes, any number of layers and all values (Coq, 
               'max/min/sum/mean/median/variance equal their definitions. Correspondence and the exact per-cell oracle cover all nine '
               'functions and six statistics on generated datasets incl. non-C memory layouts; popularity is proved to be the ref-th smallest distinct value '
               '(NaN when no value repeats; the common value when all agree) and checked as such by the oracle.')
+LEVEL_TEXT += (' That a result depends only on the dataset passed in (no state carried between calls) is a property of the model by '
+               'construction (pure functions) and is checked on the code by the multi-step sequences of the harness, not by a theorem.')
 LEVEL_NOTE = ('Trusted: the Coq kernel, extraction, the OCaml driver, the harness embedding of floats into Z, NumPy reductions on tuples, '
               'np.nditer/reshape semantics as modelled.')
 
@@ -123,8 +128,9 @@ def layer_values(case, name):
     return [[float(v) for v in row] for row in a.tolist()]
 
 
-def call_impl(local, case, force_c=False):
-    ds = make_dataset(case, force_c)
+def call_impl(local, case, force_c=False, ds=None):
+    if ds is None:
+        ds = make_dataset(case, force_c)
     fn = case['fn']
     kw = {}
     if case['data_vars'] is not None:
@@ -542,13 +548,14 @@ def classify_violation(local, case, res, what):
     return None
 
 
-def check_case(ctx, local, case, pending):
+def check_case(ctx, local, case, pending, ds=None, extra=None):
+    """ds: call on this live Dataset object (multi-step sequences) instead of a freshly built one; extra: added to the replay"""
     ctx.case(case, nontrivial=True)
     dv = selected_vars(case)
     used = dv + ([case['ref_var']] if case['ref_var'] else [])
     lays = sorted({case['layers'][n]['layout'] for n in used})
     ctx.count('%s%s/layers=%d/%s' % (case['fn'], '-' + case['stat'] if case['stat'] else '', len(dv), '+'.join(lays)))
-    res = call_impl(local, case)
+    res = call_impl(local, case, ds=ds)
     model_idx_err_ok = False
     what = oracle(case, res)
     if what is not None and res.get('exc') == 'IndexError' and case['fn'] in ('rank', 'popularity'):
@@ -556,13 +563,128 @@ def check_case(ctx, local, case, pending):
         model_idx_err_ok = True
         what = None
     if what is not None:
-        ctx.violation('oracle', what, dict(case, result=res), key=classify_violation(local, case, res, what))
-    if case['fn'] == 'lesser_frequency':
+        if extra:
+            what = '%s: %s' % (extra.get('step_what', 'sequence'), what)
+        ctx.violation('oracle', what, dict(case, result=res, **(extra or {})),
+                      key=None if ds is not None else classify_violation(local, case, res, what))
+    if case['fn'] == 'lesser_frequency' and ds is None:
         w2 = oracle_frequency_sum(local, case)
         if w2 is not None and what is None:
             ctx.violation('oracle', w2, dict(case, result=res), key=classify_violation(local, case, res, w2))
     line, s = model_line(case)
     pending.append((line, s, res, case, what is not None))
+
+
+# ---------------------------------------------------------------------------
+# multi-step sequences: the result is a function of the dataset AT THE TIME OF THE CALL
+# ---------------------------------------------------------------------------
+def snapshot_case(base, ds):
+    """the case describing the live Dataset as it is now (values read back from it)"""
+    case = dict(base)
+    case['layers'] = {}
+    for n in base['names']:
+        a = np.asarray(ds[n].values)
+        case['layers'][n] = {'dtype': str(a.dtype), 'layout': 'C',
+                             'data': [[tok_json(float(v)) for v in row] for row in a.tolist()]}
+    return case
+
+
+def same_values(c1, c2):
+    return all(c1['layers'][n]['data'] == c2['layers'][n]['data'] for n in c1['names'])
+
+
+def mutate(rng, ds, case, nsel):
+    """edit the SAME Dataset object in place; returns a description"""
+    rows, cols = case['shape']
+    used = selected_vars(case)
+    kind = rng.choice(['replace', 'write', 'nan', 'replace', 'write'])
+    name = rng.choice(used)
+    a = np.asarray(ds[name].values)
+    isfloat = a.dtype.kind == 'f'
+    if kind == 'nan' and not isfloat:
+        fl = [n for n in used if np.asarray(ds[n].values).dtype.kind == 'f']
+        if fl:
+            name = rng.choice(fl)
+            a = np.asarray(ds[name].values)
+            isfloat = True
+        else:
+            kind = 'write'
+    if kind == 'replace':
+        new = (a.astype('float64') * rng.choice([10, -1, 3]) + rng.choice([0, 1, 7])).astype(a.dtype)
+        if not isfloat and a.dtype.kind == 'u':
+            new = np.abs(a.astype('int64') * 3 + 1).astype(a.dtype)
+        ds[name] = (('y', 'x'), new)
+        return 'after replacing layer %r' % name
+    i, j = rng.randrange(rows), rng.randrange(cols)
+    if kind == 'write':
+        cur = a[i, j]
+        v = 100 if not (cur == 100) else 99            # fits every integer width
+        for _ in range(rng.randint(1, 3)):
+            ds[name].values[rng.randrange(rows), rng.randrange(cols)] = rng.choice([v, 17, 0])
+        ds[name].values[i, j] = v
+        return 'after writing cells of layer %r' % name
+    # move / add / remove a NaN
+    nanpos = np.argwhere(np.isnan(a))
+    if len(nanpos) and rng.random() < 0.6:
+        y, x = nanpos[rng.randrange(len(nanpos))]
+        ds[name].values[y, x] = 5.0
+        what = 'after removing a NaN from layer %r' % name
+        if rng.random() < 0.5:
+            ds[name].values[i, j] = np.nan
+            what = 'after moving a NaN in layer %r' % name
+        return what
+    ds[name].values[i, j] = np.nan
+    return 'after adding a NaN to layer %r' % name
+
+
+def run_sequences(ctx, local, pending):
+    nseq = 90 if ctx.quick() else 1500
+    for q in range(nseq):
+        rng = ctx.rng
+        base = gen_case(rng, q, ctx.quick())
+        rows, cols = base['shape']
+        if rows * cols > 60:
+            continue
+        for n in base['names']:
+            base['layers'][n]['layout'] = 'C'
+        ds = make_dataset(base)
+        nsel = len(selected_vars(base))
+        steps = []
+        cur = snapshot_case(base, ds)
+        ctx.count('sequence/%s%s' % (base['fn'], '-' + base['stat'] if base['stat'] else ''))
+        nsteps = rng.randint(2, 4)
+        for k in range(nsteps + 1):
+            desc = 'first call' if k == 0 else mutate(rng, ds, cur, nsel)
+            cur = snapshot_case(base, ds)
+            if base['fn'] == 'cell_stats' and k > 0 and rng.random() < 0.3:
+                cur['stat'] = rng.choice(STATS)           # another statistic of the same raster
+                cur.pop('stat_default', None)
+                base = dict(base, stat=cur['stat'])
+                base.pop('stat_default', None)
+            steps.append({'what': desc, 'case': cur})
+            check_case(ctx, local, cur, pending, ds=ds,
+                       extra={'step': k, 'step_what': 'step %d (%s, same Dataset object, same arguments)' % (k, desc),
+                              'sequence': [st['case'] for st in steps], 'sequence_what': [st['what'] for st in steps]})
+            after = snapshot_case(base, ds)
+            after['stat'] = cur['stat']
+            if not same_values(cur, after):
+                ctx.violation('oracle', '%s modified its input dataset (step %d)' % (base['fn'], k),
+                              dict(cur, sequence=[st['case'] for st in steps]))
+    # short-lived temporary Datasets (their id() may be recycled): every call must see its own data
+    ntmp = 60 if ctx.quick() else 600
+    names = ['a', 'b', 'c']
+    for q in range(ntmp):
+        rng = ctx.rng
+        fn = FUNCS[q % len(FUNCS)]
+        base = {'fn': fn, 'names': names, 'shape': [2, 3], 'data_vars': ['a', 'b'] if fn in REF_FUNCS else None,
+                'ref_var': 'c' if fn in REF_FUNCS else None, 'stat': rng.choice(STATS) if fn == 'cell_stats' else None, 'coords': None,
+                'layers': {n: {'dtype': 'float64', 'layout': 'C',
+                               'data': [[float(rng.randint(0, 9)) for _ in range(3)] for _ in range(2)]} for n in names}}
+        if fn in ('rank', 'popularity'):
+            base['layers']['c'] = {'dtype': 'int64', 'layout': 'C', 'data': [[float(rng.randint(1, 2)) for _ in range(3)] for _ in range(2)]}
+        ctx.count('temporary-datasets/%s' % fn)
+        check_case(ctx, local, base, pending, ds=make_dataset(base),
+                   extra={'step_what': 'temporary Dataset #%d in a loop (fresh object, same variable names)' % q})
 
 
 def flush_model(ctx, local, pending):
@@ -588,6 +710,9 @@ def run(ctx):
             flush_model(ctx, local, pending)
             pending = []
     flush_model(ctx, local, pending)
+    pending = []
+    run_sequences(ctx, local, pending)
+    flush_model(ctx, local, pending)
     ctx.exhaustive = False
 
 
@@ -605,7 +730,29 @@ def search(ctx):
 
 def replay_case(ctx, case):
     local = _impl()
-    case = {k: v for k, v in case.items() if k not in ('result', 'model')}
+    seq = case.get('sequence')
+    case = {k: v for k, v in case.items() if k not in ('result', 'model', 'sequence', 'sequence_what', 'step', 'step_what')}
     pending = []
+    if seq:
+        # re-run the whole sequence on ONE Dataset object, editing it in place between the calls
+        ds = make_dataset(seq[0])
+        for k, st in enumerate(seq):
+            st = {kk: v for kk, v in st.items() if kk not in ('result', 'model')}
+            if k > 0:
+                for n in st['names']:
+                    new = make_array(st['layers'][n], True)
+                    old = np.asarray(ds[n].values)
+                    if old.dtype == new.dtype and old.shape == new.shape:
+                        diff = np.argwhere(~((old == new) | (np.isnan(old.astype('float64')) & np.isnan(new.astype('float64')))))
+                        if 0 < len(diff) <= 4:
+                            for y, x in diff:
+                                ds[n].values[y, x] = new[y, x]
+                        elif len(diff):
+                            ds[n] = (('y', 'x'), new)
+                    else:
+                        ds[n] = (('y', 'x'), new)
+            check_case(ctx, local, st, pending, ds=ds, extra={'step': k, 'step_what': 'replayed step %d' % k, 'sequence': seq[:k + 1]})
+        flush_model(ctx, local, pending)
+        return
     check_case(ctx, local, case, pending)
     flush_model(ctx, local, pending)
